@@ -532,8 +532,8 @@ pub fn run(ctx: &Ctx) -> Report
                 let count = 6 + r.below(14);
                 for _ in 0..count
                 {
-                    let name = format!("{}{}", ["n", "x", "Zz", "a_", "m.", "0"][r.below(6) as usize], r.below(1000));
-                    let sub = match r.below(4) { 0 => "sub/", 1 => "sub/deeper/", _ => "" };
+                    let name = format!("{}{}", ["n", "x", "Zz", "a_", "m.", "0", ".h", ".", "~"][r.below(9) as usize], r.below(1000));
+                    let sub = match r.below(6) { 0 => "sub/", 1 => "sub/deeper/", 2 => ".cfg/", 3 => "sub/.d/", _ => "" };
                     let p = format!("{}{}", sub, name);
                     if !files.iter().any(|(q, _)| *q == p) { files.push((p, format!("c{}", r.below(5)))); }
                 }
